@@ -490,6 +490,8 @@ def run(ctx):
     rule_py_pure(ctx, py)
     rule_euler(ctx, tu, eff)
     from .. import lints
+    # shared clause: whatever an earlier run left in the engine object is re-initialised by setup (C10.RESET)
+    borrow(ctx, "C08", c10.rule_reset, ctx.py)
     lints.run(ctx, "C08", ctx.py, ["rdscript", "simulate", "librdengine", "rdsystem", "engine_collection"], truth_floor=10)
     ctx.assume("bit-identity across compilers / libm versions is not decided (same binary assumed); the sharing of the "
                "global simulation between engine objects is C10.ISOLATION")
